@@ -49,6 +49,7 @@ type Node struct {
 	Sub      *Graph   `json:"sub,omitempty"`
 	Events   []EventDef `json:"events,omitempty"`
 	Parallel bool     `json:"parallel,omitempty"` // parallelMultiple
+	Relaxed  bool     `json:"relaxed,omitempty"`  // the model takes this catch event's firings from the engine's own LeaveTrace (the property only bounds them)
 	Attached string   `json:"attached,omitempty"` // boundary: host activity
 	Interrupting bool `json:"interrupting,omitempty"`
 	Counter  string   `json:"counter,omitempty"` // task writes this loop counter
